@@ -192,3 +192,17 @@ CORPUS += [
     V("C04", "eq-op-explicit-dim", R + "op/env.py", "(current_loc - previus_loc).norm(p=2, dim=-1)", "(current_loc - previus_loc).norm(p=2, dim=(-1,))", None),
     V("C04", "eq-fjsp-any-dim1", "rl4co/envs/scheduling/fjsp/env.py", 'td["job_in_process"].any(1, keepdims=True)', 'td["job_in_process"].any(dim=1, keepdims=True)', None),
 ]
+
+CORPUS += [
+    # ---------------------------------------------------------------- C05 (extra constraints / alternatives)
+    V("C05", "mtvrp-dist-limit-ignores-open-route", R + "mtvrp/env.py", 'td["current_route_length"] + d_ij + (d_j0 * ~td["open_route"])', 'td["current_route_length"] + d_ij + d_j0', "C05.b"),
+    V("C05", "ffsp-wait-alternative-dropped", S_ + "ffsp/env.py", "wait_allowed = job_in_previous_stages + job_waiting_in_stage + done", "wait_allowed = job_in_previous_stages + done", "C05.c"),
+    V("C05", "cvrp-depot-always-blocked-while-customers", R + "cvrp/env.py", 'mask_depot = (td["current_node"] == 0) & ((mask_loc == 0).int().sum(-1) > 0)[', 'mask_depot = (td["current_node"] >= 0) & ((mask_loc == 0).int().sum(-1) > 0)[', "C05"),
+    V("C05", "cvrp-extra-constraint-half-capacity", R + "cvrp/env.py", 'mask_loc = td["visited"][..., 1:].to(exceeds_cap.dtype) | exceeds_cap', 'mask_loc = td["visited"][..., 1:].to(exceeds_cap.dtype) | exceeds_cap | (td["demand"] > 0.5 * td["vehicle_capacity"])', "C05.b"),
+    V("C05", "pctsp-depot-only-when-all-visited", R + "pctsp/env.py", '''        mask[..., 0] = (td["cur_total_prize"] < 1.0) & (
+            td["visited"][..., 1:].int().sum(-1) < td["visited"][..., 1:].size(-1)
+        )''', '''        mask[..., 0] = (
+            td["visited"][..., 1:].int().sum(-1) < td["visited"][..., 1:].size(-1)
+        )''', "C05.c"),
+    V("C05", "fjsp-machine-eligibility-on-wrong-op", S_ + "fjsp/env.py", "        action_mask.add_(next_ops_proc_times == 0)\n", '        action_mask.add_(next_ops_proc_times == 0)\n        action_mask.add_(td["busy_until"].sum(-1)[:, None, None] > 1e9)\n', "C05.b"),
+]
